@@ -308,9 +308,17 @@ class Tensor:
     def __copy__(self) -> Self:
         return self.copy()
 
+    def _elementwise_result(self, array: np.ndarray) -> Tensor:
+        # the result of elementwise arithmetic has the index types of self (axes added by broadcasting are free indices)
+        result = Tensor(array, copy=False)
+        offset = result.rank - self.rank
+        result._covariant_indices = {i + offset for i in self._covariant_indices}
+        result._contravariant_indices = {i + offset for i in self._contravariant_indices}
+        return result
+
     def __mul__(self, other: Tensor | npt.ArrayLike) -> Tensor:
         if is_numerical_scalar(other):
-            return Tensor(self.array * other, covariant=self._covariant_indices, copy=False)  # type: ignore[operator]
+            return self._elementwise_result(self.array * other)  # type: ignore[operator]
         if not isinstance(other, Tensor):
             other = Tensor(other, copy=False)
         return TensorDiagram((other, self)).calculate()
@@ -340,13 +348,13 @@ class Tensor:
 
     def __truediv__(self, other: Tensor | npt.ArrayLike) -> Tensor:
         if is_numerical_scalar(other):
-            return Tensor(self.array / other, covariant=self._covariant_indices, copy=False)  # type: ignore[operator]
+            return self._elementwise_result(self.array / other)  # type: ignore[operator]
         return NotImplemented
 
     def __add__(self, other: Tensor | npt.ArrayLike) -> Tensor:
         if isinstance(other, Tensor):
             other = other.array
-        return Tensor(self.array + other, covariant=self._covariant_indices, copy=False)  # type: ignore[operator]
+        return self._elementwise_result(self.array + other)  # type: ignore[operator]
 
     def __radd__(self, other: Tensor | npt.ArrayLike) -> Tensor:
         return self + other
@@ -354,7 +362,7 @@ class Tensor:
     def __sub__(self, other: Tensor | npt.ArrayLike) -> Tensor:
         if isinstance(other, Tensor):
             other = other.array
-        return Tensor(self.array - other, covariant=self._covariant_indices, copy=False)  # type: ignore[operator]
+        return self._elementwise_result(self.array - other)  # type: ignore[operator]
 
     def __rsub__(self, other: Tensor | npt.ArrayLike) -> Tensor:
         return -self + other
